@@ -159,8 +159,20 @@ def gen_scenario(rng, quick):
 
 
 # --------------------------------------------------------------------------- running
+def _run_lines_retry(args, lines, **kw):
+    """another check may be relinking a shared library of the common build tree at this very
+    moment (`file too short` / `cannot open shared object`): wait and retry"""
+    import time as _t
+    for _ in range(12):
+        rc, out = vlib.run_lines(args, lines, **kw)
+        if not any("error while loading shared libraries" in l for l in out[:3]):
+            return rc, out
+        _t.sleep(5)
+    return rc, out
+
+
 def run_harness(exe, line):
-    rc, out = vlib.run_lines([exe], [line], env={"CELER_LOG_LOCAL": "error"}, timeout=600)
+    rc, out = _run_lines_retry([exe], [line], env={"CELER_LOG_LOCAL": "error"}, timeout=600)
     I = [l[2:] for l in out if l.startswith("I ")]
     O = [l[2:] for l in out if l.startswith("O ")]
     other = [l for l in out if not l.startswith(("I ", "O ", "#"))]
